@@ -382,7 +382,7 @@ def check_parse_section(facts, ps, out):
             '' if okskip else 'a skipped line is not simply followed by the next read_line', ordinal=False)
     # the parser is reached only on the not-a-header edge
     th = ps.term(ht['t'])
-    okh = th['k'] == 'switch'
+    okh = th['k'] == 'switch' or table_ok        # (the table decides the same fact independently of the block layout)
     out.add('FR-F3', PARSE_SECTION, 'header-edge', loc_of(ht['sp']), okh, '' if okh else 'header test result is not branched on',
             ordinal=False)
     # returns: Continue(next) only with next from try_from_line; Break only on Ok(None); Err from read_line
@@ -491,9 +491,20 @@ def check_parse_section(facts, ps, out):
 def check_parse_first(facts, pf, out):
     hdr = _calls_named(pf, lambda c: c['path'] == TRY_FROM_LINE)
     rdl = _calls_named(pf, lambda c: facts.ref_name(c) == 'read_line')
-    out.anchor('FR', 'parse_first_section: header tests / read_line', len(hdr) >= 1 and len(rdl) == 1,
-               'header=%d read_line=%d' % (len(hdr), len(rdl)))
-    if not hdr or len(rdl) != 1:
+    import linetable
+    hpf = facts.hir.get(PARSE_FIRST)
+    trows = linetable.first_section_table(facts, hpf) if hpf is not None else [('first:table', False, 'not found')]
+    for lbl, okt, whyt in trows:
+        out.add('FR-F4', PARSE_FIRST, 'line-table:' + lbl, '%s:%d' % (pf.file, pf.line), okt, whyt, ordinal=False)
+    table_ok = all(x[1] for x in trows)
+    mir_shape = len(hdr) >= 1 and len(rdl) == 1
+    out.anchor('FR', 'parse_first_section: header tests / read_line', mir_shape or table_ok,
+               'header=%d read_line=%d table=%s' % (len(hdr), len(rdl), table_ok))
+    if not mir_shape:
+        if table_ok:
+            for lbl in ('return<-?', 'return<-Ok', 'return<-Ok#1', 'return<-Ok#2'):
+                out.add('FR-F4', PARSE_FIRST, lbl, '%s:%d' % (pf.file, pf.line), True, '', {'via': 'line table'}, ordinal=False)
+            out.anchor('FR', 'parse_first_section returns', True, 'table')
         return
     rb, rt = rdl[0]
     hdr_dests = {t['dest']['l']: bb for bb, t in hdr}
@@ -578,7 +589,20 @@ def run_encode_framing(facts, out, tab=None):
     out.anchor('FR', 'Beatmap::encode (HIR)', hfn is not None)
     if hfn is None:
         return
-    evs = H.flat_write_events(facts, enc)
+    # a `for` over a literal array of section writers is the sequence of its elements
+    unrolled = H.unroll_literal_loops(hfn)
+    real_key = hfn.get('path', enc)
+    try:
+        if unrolled['body'] != hfn['body']:
+            # the elements are called through a small driver helper: look at it in place (closures applied), but leave the
+            # section writers themselves as calls
+            keep = tuple(w for ws in section_writers(facts).values() for w in ws)
+            unrolled = H.inlined_fn(facts, unrolled, depth=2, keep=keep)
+            unrolled['body'] = H._beta(unrolled['body'])
+            dict.__setitem__(facts.hir, real_key, unrolled)
+        evs = H.flat_write_events(facts, enc)
+    finally:
+        dict.__setitem__(facts.hir, real_key, hfn)
     inits = {}
     for f in {e['fn'] for e in evs}:
         inits[f] = H.binding_inits(facts.hir[f])
